@@ -147,6 +147,10 @@ func (g *Gen) randBatch(name string, cfg batchCfg) *BatchSpec {
 		dvFields[f] = g.chance(0.5)
 	}
 	idDV := g.chance(0.15)
+	emptyThes := ""
+	if cfg.syn && g.chance(0.2) {
+		emptyThes = g.pick([]string{"thesA", "thesB", "thesC"})
+	}
 	for i := 0; i < nd; i++ {
 		id := []byte(fmt.Sprintf("%s-%d", name, i))
 		if cfg.dupIDs && i > 0 && g.chance(0.3) {
@@ -212,6 +216,11 @@ func (g *Gen) randBatch(name string, cfg batchCfg) *BatchSpec {
 					sf.Name = cfg.fields[g.r.Intn(len(cfg.fields))]
 				}
 				ndef := 1 + g.r.Intn(3)
+				if sf.Name == emptyThes || g.chance(0.06) {
+					// a synonym field whose definitions are all gone (a thesaurus that is
+					// defined by the batch but has no term at all when every field is like this)
+					ndef = 0
+				}
 				seen := map[string]bool{}
 				for k := 0; k < ndef; k++ {
 					lhs := synTerms[g.r.Intn(len(synTerms))]
@@ -541,6 +550,25 @@ func (g *Gen) genC03(n int) error {
 			}
 			d := g.r.Intn(g.ndocs[cur])
 			g.emit("q dv %s %s fields=%s doc=%d", cur, st, strList(fields), d)
+		}
+		// one state, a field list that changes from call to call (the readers a state holds
+		// are the ones of the call that set it up)
+		st3 := g.fresh("st")
+		allf := append(sortedKeys(fieldSet), "nosuchfield")
+		for v := 0; v < 8+g.r.Intn(8); v++ {
+			if g.chance(0.2) {
+				cur = segs[g.r.Intn(2)]
+			}
+			sub := []string{}
+			for _, f := range allf {
+				if g.chance(0.5) {
+					sub = append(sub, f)
+				}
+			}
+			if v >= 3 && g.chance(0.4) {
+				sub = allf
+			}
+			g.emit("q dv %s %s fields=%s doc=%d", cur, st3, strList(sub), g.r.Intn(g.ndocs[cur]))
 		}
 		// descending order with a fresh state
 		st2 := g.fresh("st")
